@@ -5,10 +5,12 @@ Import ListNotations.
 From NV Require Import lib.Bytes lib.Proto lib.Der model.CertCodec proofs.CertCodec_sort.
 Open Scope N_scope.
 
-Definition cap : nat := 65536.
+(* "not longer than MaxCertificateSize" *)
+Definition fits {A} (l : list A) : Prop := N.of_nat (length l) <= 65536.
+Ltac flia := unfold fits, lenN, max_content, max_certificate_size, max_network_length, max_name_length in *; lia.
 
-Lemma lenN_le_cap {A} (l : list A) : (length l <= cap)%nat -> lenN l <= max_content.
-Proof. unfold lenN, max_content, cap. lia. Qed.
+Lemma lenN_le_cap {A} (l : list A) : fits l -> lenN l <= max_content.
+Proof. flia. Qed.
 
 Lemma is_nil_false {A} (l : list A) : l <> [] -> is_nil l = false.
 Proof. destruct l; [contradiction|reflexivity]. Qed.
@@ -22,11 +24,11 @@ Proof. destruct (emit_tlv_head t c) as [x ->]. reflexivity. Qed.
 
 (* ---- one element ---- *)
 
-Lemma read_asn1_ok tag c rest : tag mod 32 <> 31 -> (length c <= cap)%nat ->
+Lemma read_asn1_ok tag c rest : tag mod 32 <> 31 -> fits (c) ->
   read_asn1 tag (emit_tlv tag c ++ rest) = Some (c, rest).
 Proof. intros. apply read_asn1_emit; [assumption|]. now apply lenN_le_cap. Qed.
 
-Lemma read_asn1_ok0 tag c : tag mod 32 <> 31 -> (length c <= cap)%nat ->
+Lemma read_asn1_ok0 tag c : tag mod 32 <> 31 -> fits (c) ->
   read_asn1 tag (emit_tlv tag c) = Some (c, []).
 Proof. intros. rewrite <- (app_nil_r (emit_tlv tag c)). now apply read_asn1_ok. Qed.
 
@@ -54,6 +56,11 @@ Proof. induction l as [|a l IH]; cbn; [destruct r; reflexivity|now rewrite IH]. 
 Lemma nth_len_app {A} (l : list A) x r d : nth (length l) (l ++ x :: r) d = x.
 Proof. induction l as [|a l IH]; cbn; [reflexivity|exact IH]. Qed.
 
+Lemma firstn_app_exact {A} n (l r : list A) : length l = n -> firstn n (l ++ r) = l.
+Proof. intros <-. apply firstn_len_app. Qed.
+Lemma nth_app_exact {A} n (l : list A) x r d : length l = n -> nth n (l ++ x :: r) d = x.
+Proof. intros <-. apply nth_len_app. Qed.
+
 Lemma pfx_bin_length p : length (pfx_bin p) = if p_is4 p then 5%nat else 17%nat.
 Proof. unfold pfx_bin. rewrite app_length. destruct (p_is4 p); rewrite be_enc_length; reflexivity. Qed.
 
@@ -63,13 +70,11 @@ Proof.
   destruct p as [[is4 a] bits]. unfold pfx_valid, p_is4, p_addr, p_bits in *. cbn [fst snd] in *.
   destruct is4.
   - change (5 =? 5)%nat with true. cbv iota.
-    replace 4%nat with (length (be_enc 4 a)) at 1 3 by apply be_enc_length.
-    rewrite firstn_len_app, nth_len_app.
-    apply andb_prop in Hv as [Ha Hb]. rewrite be_dec_enc by (cbn; lia).
+    rewrite firstn_app_exact, nth_app_exact by apply be_enc_length.
+    apply andb_prop in Hv as [Ha Hb]. rewrite be_dec_enc by (unfold two32 in Ha; cbn; lia).
     unfold pfx_valid, p_is4, p_addr, p_bits. cbn [fst snd]. rewrite Ha, Hb. reflexivity.
   - change (17 =? 5)%nat with false. change (17 =? 17)%nat with true. cbv iota.
-    replace 16%nat with (length (be_enc 16 a)) at 1 3 by apply be_enc_length.
-    rewrite firstn_len_app, nth_len_app.
+    rewrite firstn_app_exact, nth_app_exact by apply be_enc_length.
     apply andb_prop in Hv as [Ha Hb]. rewrite be_dec_enc by (unfold two128 in Ha; cbn; lia).
     unfold pfx_valid, p_is4, p_addr, p_bits. cbn [fst snd]. rewrite Ha, Hb. reflexivity.
 Qed.
@@ -83,14 +88,14 @@ Proof.
   intros Hv. unfold read_net, enc_net.
   assert (HL : (length (pfx_bin p) = 5 \/ length (pfx_bin p) = 17)%nat)
     by (rewrite pfx_bin_length; destruct (p_is4 p); auto).
-  rewrite read_asn1_ok by (try exact octet_good; unfold cap; lia).
+  rewrite read_asn1_ok by (try exact octet_good; flia).
   replace (is_nil (pfx_bin p)) with false by (destruct (pfx_bin p); [cbn in HL; lia|reflexivity]).
   replace (max_network_length <? lenN (pfx_bin p)) with false
     by (symmetry; apply N.ltb_ge; unfold max_network_length, lenN; lia).
   cbn [orb]. now rewrite pfx_unbin_bin.
 Qed.
 
-Lemma read_group_enc g rest : g <> [] -> (length g <= cap)%nat -> read_group (enc_group g ++ rest) = Some (g, rest).
+Lemma read_group_enc g rest : g <> [] -> fits (g) -> read_group (enc_group g ++ rest) = Some (g, rest).
 Proof.
   intros Hg HL. unfold read_group, enc_group. rewrite read_asn1_ok by (try exact utf8_good; assumption).
   now rewrite is_nil_false.
@@ -132,7 +137,7 @@ Qed.
 
 (* an optional list: the element is present exactly when the list is not empty *)
 Lemma read_opt_list_enc {A} tag (item : list N -> option (A * list N)) (enc : A -> list N) xs Y :
-  tag mod 32 <> 31 -> (length (flat_map enc xs) <= cap)%nat ->
+  tag mod 32 <> 31 -> fits ((flat_map enc xs)) ->
   (forall s x rest, item s = Some (x, rest) -> (length rest < length s)%nat) ->
   (forall x rest, In x xs -> item (enc x ++ rest) = Some (x, rest)) ->
   (forall x, In x xs -> enc x <> []) ->
@@ -168,7 +173,7 @@ Lemma read_int64_enc tag v Y : tag mod 32 <> 31 -> int64_ok v = true ->
   read_int64 tag (emit_tlv tag (int64_enc v) ++ Y) = Some (v, Y).
 Proof.
   intros Ht Hv. unfold read_int64. pose proof (int64_enc_length v).
-  rewrite read_asn1_ok by (try assumption; unfold cap; lia). now rewrite int64_dec_enc.
+  rewrite read_asn1_ok by (try assumption; flia). now rewrite int64_dec_enc.
 Qed.
 
 (* ---- details ---- *)
@@ -201,38 +206,38 @@ Lemma t_good :
   t_isca mod 32 <> 31 /\ t_notbefore mod 32 <> 31 /\ t_notafter mod 32 <> 31 /\ t_issuer mod 32 <> 31.
 Proof. repeat split; discriminate. Qed.
 
-Theorem unmarshal_details_encode c : details_wf c -> (length (encode_details c) <= cap)%nat ->
+Theorem unmarshal_details_encode c : details_wf c -> fits ((encode_details c)) ->
   unmarshal_details (encode_details c) = Some (details_only c).
 Proof.
   intros (Hn & Hnl & Hnets & Huns & Hgrp & Hnb & Hna) HL.
   destruct t_good as (Gd & Gc & Gp & Gs & Gn & Gnet & Gu & Gg & Gca & Gnb & Gna & Gi).
   unfold encode_details in *.
-  assert (HB : (length (details_body c) <= cap)%nat)
-    by (pose proof (emit_tlv_length t_details (details_body c)); lia).
+  assert (HB : fits ((details_body c)))
+    by (pose proof (emit_tlv_length t_details (details_body c)); flia).
   destruct (details_body_bounds c) as (B1 & B2 & B3 & B4 & B5).
   unfold unmarshal_details. rewrite read_asn1_ok0 by assumption.
   unfold details_body. rewrite is_nil_emit_app.
-  rewrite read_asn1_ok by (try assumption; lia).
-  rewrite (is_nil_false _ Hn). replace (max_name_length <? lenN (c_name c)) with false by (symmetry; apply N.ltb_ge; lia).
+  rewrite read_asn1_ok by (try assumption; flia).
+  rewrite (is_nil_false _ Hn). replace (max_name_length <? lenN (c_name c)) with false by (symmetry; apply N.ltb_ge; flia).
   cbn [orb].
   (* networks *)
-  rewrite (read_opt_list_enc t_networks read_net enc_net); try assumption; try lia;
+  rewrite (read_opt_list_enc t_networks read_net enc_net); try assumption; try flia;
     [|exact read_net_progress
      |intros p rest Hp; apply read_net_enc; rewrite forallb_forall in Hnets; now apply Hnets
      |intros p _; apply emit_tlv_nonempty
      |intros _; solve_peek].
   (* unsafe networks *)
-  rewrite (read_opt_list_enc t_unsafe read_net enc_net); try assumption; try lia;
+  rewrite (read_opt_list_enc t_unsafe read_net enc_net); try assumption; try flia;
     [|exact read_net_progress
      |intros p rest Hp; apply read_net_enc; rewrite forallb_forall in Huns; now apply Huns
      |intros p _; apply emit_tlv_nonempty
      |intros _; solve_peek].
   (* groups *)
-  rewrite (read_opt_list_enc t_groups read_group enc_group); try assumption; try lia;
+  rewrite (read_opt_list_enc t_groups read_group enc_group); try assumption; try flia;
     [|exact read_group_progress
      |intros g rest Hg; apply read_group_enc; [now apply Hgrp|];
       pose proof (flat_map_elem_len enc_group _ _ Hg) as X; unfold enc_group in X at 1;
-      pose proof (emit_tlv_length tag_utf8string g); lia
+      pose proof (emit_tlv_length tag_utf8string g); flia
      |intros g _; apply emit_tlv_nonempty
      |intros _; solve_peek].
   rewrite read_opt_bool_enc by (try assumption; solve_peek).
@@ -241,7 +246,7 @@ Proof.
   unfold details_only. destruct (c_issuer c) as [|i0 iss] eqn:Ei.
   - cbn [is_nil]. reflexivity.
   - cbn [is_nil]. rewrite <- (app_nil_r (emit_tlv t_issuer (i0 :: iss))).
-    rewrite read_optional_present by (try assumption; apply lenN_le_cap; lia). reflexivity.
+    rewrite read_optional_present by (try assumption; apply lenN_le_cap; flia). reflexivity.
 Qed.
 
 (* ---- the certificate ---- *)
@@ -272,7 +277,7 @@ Lemma rebuild_eq c cv pub sg : cv = c_curve c -> pub = c_pub c -> sg = c_sig c -
 Proof. intros -> -> ->. destruct c; reflexivity. Qed.
 
 (* the standard encoding: Marshal -> unmarshalCertificateV2(b, nil, dcurve) *)
-Theorem decode_encode_v2 c dcurve : issued_v2 c -> (length (encode_v2 (seal_v2 c)) <= cap)%nat ->
+Theorem decode_encode_v2 c dcurve : issued_v2 c -> fits ((encode_v2 (seal_v2 c))) ->
   (c_curve c = 0 -> dcurve mod 256 = 0) ->
   decode_v2 [] dcurve (encode_v2 (seal_v2 c)) = Some (seal_v2 c).
 Proof.
@@ -287,20 +292,20 @@ Proof.
   set (raw := encode_details c) in *.
   set (inner := raw ++ _) in *.
   pose proof (emit_tlv_length tag_sequence inner) as Li.
-  assert (Hinner : (length inner <= cap)%nat) by lia.
-  assert (Hparts : (length raw <= cap /\ length (c_pub c) <= cap /\ length (c_sig c) <= cap)%nat).
-  { unfold inner in Hinner. rewrite !app_length in Hinner.
-    pose proof (opt_bytes_len t_pubkey (c_pub c)). pose proof (emit_tlv_length t_signature (c_sig c)). lia. }
+  assert (Hinner : fits (inner)) by flia.
+  assert (Hparts : fits raw /\ fits (c_pub c) /\ fits (c_sig c)).
+  { unfold inner, fits in *. rewrite !app_length in Hinner.
+    pose proof (opt_bytes_len t_pubkey (c_pub c)). pose proof (emit_tlv_length t_signature (c_sig c)). flia. }
   destruct Hparts as (Lraw & Lpub & Lsig).
   unfold decode_v2.
   replace (is_nil (emit_tlv tag_sequence inner)) with false
     by (symmetry; rewrite <- (app_nil_r (emit_tlv _ _)); apply is_nil_emit_app).
   replace (max_certificate_size <? lenN (emit_tlv tag_sequence inner)) with false
-    by (symmetry; apply N.ltb_ge; unfold max_certificate_size, lenN, cap in *; lia).
+    by (symmetry; apply N.ltb_ge; flia).
   cbn [orb]. rewrite read_asn1_ok0 by (try exact seq_good; assumption).
   unfold inner at 1 2. unfold raw at 1 3. unfold encode_details at 1 2. rewrite is_nil_emit_app.
-  assert (Lbody : (length (details_body c) <= cap)%nat).
-  { unfold raw, encode_details in Lraw. pose proof (emit_tlv_length t_details (details_body c)). lia. }
+  assert (Lbody : fits ((details_body c))).
+  { unfold raw, encode_details in Lraw. pose proof (emit_tlv_length t_details (details_body c)). flia. }
   rewrite read_element_emit by (try assumption; now apply lenN_le_cap).
   fold (encode_details c). fold raw.
   (* curve *)
@@ -313,7 +318,7 @@ Proof.
     unfold raw. rewrite unmarshal_details_encode by assumption.
     rewrite rebuild_eq by (try reflexivity; rewrite Hd by assumption; now symmetry).
     now rewrite valid_v2_validate.
-  - apply N.eqb_neq in Ec. rewrite read_optional_present by (try assumption; cbn; unfold max_content; lia).
+  - apply N.eqb_neq in Ec. rewrite read_optional_present by (try assumption; cbn; unfold max_content; flia).
     rewrite (is_nil_false _ Hpub).
     cbn [is_nil]. rewrite read_optional_present by (try assumption; now apply lenN_le_cap).
     rewrite (is_nil_false _ Hpub). rewrite read_asn1_ok0 by assumption. rewrite (is_nil_false _ Hsig).
@@ -323,7 +328,7 @@ Proof.
 Qed.
 
 (* the handshake encoding: MarshalForHandshakes -> unmarshalCertificateV2(b, publicKey, curve) *)
-Theorem decode_encode_hs_v2 c : issued_v2 c -> (length (encode_hs_v2 (seal_v2 c)) <= cap)%nat ->
+Theorem decode_encode_hs_v2 c : issued_v2 c -> fits ((encode_hs_v2 (seal_v2 c))) ->
   decode_v2 (c_pub c) (c_curve c) (encode_hs_v2 (seal_v2 c)) = Some (seal_v2 c).
 Proof.
   intros (Hv & Hsig & Hcv & Hnb & Hna) HL.
@@ -337,20 +342,20 @@ Proof.
   set (raw := encode_details c) in *.
   set (inner := raw ++ _) in *.
   pose proof (emit_tlv_length tag_sequence inner) as Li.
-  assert (Hinner : (length inner <= cap)%nat) by lia.
-  assert (Hparts : (length raw <= cap /\ length (c_sig c) <= cap)%nat).
-  { unfold inner in Hinner. rewrite !app_length in Hinner.
-    pose proof (emit_tlv_length t_signature (c_sig c)). lia. }
+  assert (Hinner : fits (inner)) by flia.
+  assert (Hparts : fits raw /\ fits (c_sig c)).
+  { unfold inner, fits in *. rewrite !app_length in Hinner.
+    pose proof (emit_tlv_length t_signature (c_sig c)). flia. }
   destruct Hparts as (Lraw & Lsig).
   unfold decode_v2.
   replace (is_nil (emit_tlv tag_sequence inner)) with false
     by (symmetry; rewrite <- (app_nil_r (emit_tlv _ _)); apply is_nil_emit_app).
   replace (max_certificate_size <? lenN (emit_tlv tag_sequence inner)) with false
-    by (symmetry; apply N.ltb_ge; unfold max_certificate_size, lenN, cap in *; lia).
+    by (symmetry; apply N.ltb_ge; flia).
   cbn [orb]. rewrite read_asn1_ok0 by (try exact seq_good; assumption).
   unfold inner at 1 2. unfold raw at 1 3. unfold encode_details at 1 2. rewrite is_nil_emit_app.
-  assert (Lbody : (length (details_body c) <= cap)%nat).
-  { unfold raw, encode_details in Lraw. pose proof (emit_tlv_length t_details (details_body c)). lia. }
+  assert (Lbody : fits ((details_body c))).
+  { unfold raw, encode_details in Lraw. pose proof (emit_tlv_length t_details (details_body c)). flia. }
   rewrite read_element_emit by (try assumption; now apply lenN_le_cap).
   fold (encode_details c). fold raw.
   unfold read_opt_byte. rewrite <- (app_nil_r (emit_tlv t_signature (c_sig c))).
@@ -363,10 +368,13 @@ Proof.
 Qed.
 
 (* every certificate the v2 decoder returns obeys the rules validate() enforces on signing, its signature and key
-   are not empty and its details are the ones that were on the wire *)
+   are not empty, and its fields are: what unmarshalDetails reads from the kept details bytes, the curve, the key and
+   the signature, run through validate() *)
 Theorem decode_v2_sound pk dcurve b c : decode_v2 pk dcurve b = Some c ->
-  valid_v2 (c2 c) = true /\ c_sig (c2 c) <> [] /\ c_pub (c2 c) <> [] /\ c_curve (c2 c) < 256 + dcurve mod 256 /\
-  exists d, unmarshal_details (c2_raw c) = Some d.
+  valid_v2 (c2 c) = true /\ c_sig (c2 c) <> [] /\ c_pub (c2 c) <> [] /\
+  exists d, unmarshal_details (c2_raw c) = Some d /\
+    validate_v2 (mkCert (c_name d) (c_nets d) (c_unsafe d) (c_groups d) (c_isca d) (c_nb d) (c_na d) (c_issuer d)
+                        (c_curve (c2 c)) (c_pub (c2 c)) (c_sig (c2 c))) = Some (c2 c).
 Proof.
   unfold decode_v2. destruct (is_nil b || _); [discriminate|].
   destruct (read_asn1 tag_sequence b) as [[inp r0]|]; [|discriminate].
@@ -381,10 +389,25 @@ Proof.
   destruct (validate_v2 _) as [c'|] eqn:Ev; [|discriminate].
   intros H; inversion H; subst; clear H. cbn [c2 c2_raw].
   pose proof (validate_v2_valid _ _ Ev) as Hvalid.
-  unfold validate_v2 in Ev. destruct (check_v2 _); [|discriminate]. inversion Ev; subst; clear Ev.
-  unfold with_nets. cbn [c_sig c_pub c_curve].
+  assert (Hf : c_sig c' = sig /\ c_pub c' = pub /\ c_curve c' = curve).
+  { unfold validate_v2 in Ev. destruct (check_v2 _); [|discriminate]. inversion Ev; subst. now cbn. }
+  destruct Hf as (-> & -> & ->).
   split; [exact Hvalid|]. split; [now apply is_nil_false_iff|]. split; [now apply is_nil_false_iff|].
-  split; [|eauto].
-  (* the curve is one byte of input or the default *)
-  admit.
-Abort.
+  exists d. split; [reflexivity|exact Ev].
+Qed.
+
+(* the handshake form is never longer than the standard form *)
+Lemma len_enc_mono a b : a <= b -> (length (len_enc a) <= length (len_enc b))%nat.
+Proof.
+  intros H. unfold len_enc.
+  repeat match goal with |- context [?x <? ?y] => destruct (N.ltb_spec x y) end; cbn [length be_enc]; lia.
+Qed.
+
+Lemma emit_tlv_mono t a b : (length a <= length b)%nat -> (length (emit_tlv t a) <= length (emit_tlv t b))%nat.
+Proof.
+  intros H. unfold emit_tlv, hdr_enc. rewrite !app_length. cbn [length].
+  pose proof (len_enc_mono (N.of_nat (length a)) (N.of_nat (length b))). lia.
+Qed.
+
+Lemma encode_hs_v2_shorter c : (length (encode_hs_v2 c) <= length (encode_v2 c))%nat.
+Proof. unfold encode_hs_v2, encode_v2. apply emit_tlv_mono. rewrite !app_length. lia. Qed.
